@@ -684,5 +684,213 @@ theorem assignMove_spec (c : Cfg) (hok : c.OK) (i j : Nat) (s : St) (hG : Good c
         · rw [harrs, List.getElem?_set_ne (Ne.symm hij)]
           exact List.getElem?_set_self (by rw [h3]; simp; exact hlti)
 
+/-! ### element-wise assignment, copy assignment, assign, reextent&& -/
+
+theorem eqv_ext_refl (e : Ext) : e.eqv e = true := by simp [Ext.eqv]
+
+theorem extsEq_refl : ∀ (es : List Ext), extsEq es es = true
+  | [] => rfl
+  | e :: es => by simp [extsEq, eqv_ext_refl, extsEq_refl es]
+
+/-- element-wise assignment into (a prefix of) the block of a live array of the pool: whether it completes or an element
+    assignment throws, no cell changes its status -/
+theorem assignOwn_out (c : Cfg) (i k : Nat) (x : Arr) (s : St) {T : Prop} (hI : InvS c s)
+    (hi : s.arrs[i]? = some (some x)) (hk : k ≤ x.n) :
+    Out (assignAll c x.base (List.range k) s)
+      (fun _ s' => InvS c s' ∧ NF s s' ∧ s'.arrs = s.arrs ∧ (InvAS c s → InvAS c s'))
+      (fun s' => s.fuel ≠ none ∧ InvS c s' ∧ s'.arrs = s.arrs) T := by
+  by_cases h0 : k = 0
+  · subst h0
+    apply Out.mono (assignAll_nil (Q := fun s' => s.fuel ≠ none ∧ InvS c s' ∧ s'.arrs = s.arrs) c x.base s) _ (fun _ h => h) id
+    intro _ s' h; subst h
+    exact ⟨hI, NF.refl _, rfl, fun h => h⟩
+  · obtain ⟨b, blk, hb, hB, hf, hsz, hc⟩ := hI.valid i x hi (by omega)
+    rw [hb]
+    have hoff : ∀ off ∈ List.range k, off < blk.size := by
+      intro off ho; rw [List.mem_range] at ho; omega
+    apply Out.mono (assignAll_out (T := T) c b (List.range k) s hB hf hoff hc) _ _ id
+    · intro _ s' ⟨cs', hfr, hcs⟩
+      refine ⟨?_, hfr.fuel, hfr.arrs, ?_⟩
+      · show Inv c s'.blocks s'.arrs
+        rw [hfr.blocks, hfr.arrs]
+        exact Inv.set_cells hI hB (fun _ => hcs) (fun h => by rw [hf] at h; cases h)
+      · intro hA
+        show InvA c s'.blocks s'.arrs
+        rw [hfr.blocks, hfr.arrs]
+        exact InvA.set_cells hA hB
+    · intro s' ⟨hfu, cs', hfr, hcs⟩
+      refine ⟨hfu, ?_, hfr.arrs⟩
+      show Inv c s'.blocks s'.arrs
+      rw [hfr.blocks, hfr.arrs]
+      exact Inv.set_cells hI hB (fun _ => hcs) (fun h => by rw [hf] at h; cases h)
+
+theorem viewAssign_spec (c : Cfg) (hok : c.OK) (i j : Nat) (s : St) (hG : Good c s)
+    (happ : (Op.viewAssign i j).applicable c s = true) : OpSpec c (.viewAssign i j) s := by
+  simp only [Op.applicable, Bool.and_eq_true] at happ
+  cases hx : getArr s i with
+  | none => rw [hx] at happ; simp at happ
+  | some x =>
+    cases hy : getArr s j with
+    | none => rw [hx, hy] at happ; simp at happ
+    | some y =>
+      have hi := getArr_eq hx
+      have hj := getArr_eq hy
+      unfold OpSpec
+      show Out (opViewAssign c i j s) _ _ _
+      unfold opViewAssign
+      rw [get_bind]
+      simp only [hx, hy]
+      apply Out.bind (readSrc_out (Q := fun _ => False) c j _ y s hG.1 hj (Nat.le_refl _)) _ (fun _ h => h.elim)
+      intro _ s1 h1; subst h1
+      apply Out.mono (assignOwn_out (T := s1.fuel ≠ none ∧ (Op.viewAssign i j).isSaMove = true) c i x.n x s1 hG.1 hi (Nat.le_refl _)) _ _ id
+      · intro _ s' ⟨h1, h2, h3, h4⟩
+        refine ⟨⟨h1, by rw [h3]; exact hG.2⟩, h2, by rw [h3], fun _ => h4, ?_⟩
+        show allocOf s' i = allocOf s1 i
+        unfold allocOf getArr; rw [h3]
+      · intro s' ⟨h1, h2, h3⟩
+        exact ⟨h1, by rw [h3], h2, by rw [h3]; exact hG.2⟩
+
+/-- the tail of every "clear, then rebuild" operation of the repaired code: slot `i` holds an empty array; `buildSafe` and
+    adoption of the new block.  `mk p` is the array stored at the end. -/
+theorem rebuild_out (c : Cfg) (i : Nat) (x1 : Arr) (al : AllocId) (n : Nat) (construct : Bool) (mk : Option Nat → Arr) (s : St)
+    {T : Prop} (hI : InvS c s) (hW : Wn s.arrs) (hi : s.arrs[i]? = some (some x1)) (hx1 : x1.n = 0)
+    (hct : construct = false → c.trivCtor = true)
+    (hmb : ∀ p, (mk p).base = p) (hmn : ∀ p, (mk p).n = n) (hme : ∀ p, (mk p).n = nElems (mk p).ext)
+    (hma : ∀ p, c.eqv al (mk p).alloc = true) :
+    Out ((buildSafe c al n construct >>= fun p => setSlot i (some (mk p))) s)
+      (fun _ s' => Good c s' ∧ NF s s' ∧ (∃ p, s'.arrs = s.arrs.set i (some (mk p))) ∧ (InvAS c s → InvAS c s'))
+      (fun s' => s.fuel ≠ none ∧ Good c s' ∧ s'.arrs = s.arrs) T := by
+  apply Out.bind (buildSafe_out (T := T) c al n construct s hct)
+  · intro p s1 hb
+    apply Out.mono (setSlot_out i _ s1) _ (fun _ h => h) id
+    intro _ s2 h2
+    have harrs : s2.arrs = s.arrs.set i (some (mk p)) := by rw [h2.arrs, hb.2.1]
+    refine ⟨⟨?_, ?_⟩, fun h => h2.fuel (hb.1 h), ⟨p, harrs⟩, ?_⟩
+    · show Inv c s2.blocks s2.arrs
+      rw [h2.blocks, harrs]
+      exact hb.install hI hi (fun b => ownsB_empty b hx1) (hmb p) (hmn p)
+    · rw [harrs]
+      exact hW.set (fun z hz => by cases hz; exact hme p)
+    · intro hA
+      show InvA c s2.blocks s2.arrs
+      rw [h2.blocks, harrs]
+      exact hb.installA hI hA (hmb p) (hmn p) (hma p)
+  · intro s1 ⟨hfu, hcl⟩
+    exact ⟨hfu, ⟨hcl.inv hI, by rw [hcl.1]; exact hW⟩, hcl.1⟩
+
+theorem assignCopy_spec (c : Cfg) (hok : c.OK) (i j : Nat) (s : St) (hG : Good c s)
+    (happ : (Op.assignCopy i j).applicable c s = true) (hfx : (Op.assignCopy i j).fixedIn c = true) :
+    OpSpec c (.assignCopy i j) s := by
+  simp only [Op.applicable, Bool.and_eq_true] at happ
+  obtain ⟨x, hx⟩ := alive_iff.mp happ.1
+  obtain ⟨y, hy⟩ := alive_iff.mp happ.2
+  have hi := getArr_eq hx
+  have hj := getArr_eq hy
+  have hlti : i < s.arrs.length := (List.getElem?_eq_some_iff.mp hi).1
+  have hfx7 : c.fx7 = true := hfx
+  unfold OpSpec
+  show Out (opAssignCopy c i j s) _ _ _
+  unfold opAssignCopy
+  rw [get_bind]
+  simp only [hx, hy]
+  by_cases hsame : extsEq x.ext y.ext = true
+  · simp only [hsame, if_true]
+    by_cases hij : i = j
+    · subst hij
+      simp only [if_true]
+      apply Out.pure'
+      refine ⟨hG, NF.refl s, rfl, fun _ h => h, ?_⟩
+      show allocOf s i = if c.pocca then allocOf s i else allocOf s i
+      cases c.pocca <;> rfl
+    · simp only [hij, if_false]
+      -- the allocator may be replaced first; then element-wise assignment
+      generalize hx1 : (if c.pocca = true then { x with alloc := y.alloc } else x) = x1
+      have hx1b : x1.base = x.base := by rw [← hx1]; split <;> rfl
+      have hx1n : x1.n = x.n := by rw [← hx1]; split <;> rfl
+      have hx1e : x1.ext = x.ext := by rw [← hx1]; split <;> rfl
+      apply Out.bind (setSlot_out i (some x1) s) _ (fun _ h => h)
+      intro _ s1 h1
+      have hI1 : InvS c s1 := by
+        show Inv c s1.blocks s1.arrs
+        rw [h1.blocks, h1.arrs]; exact Inv.relabel hG.1 hi hx1b hx1n
+      have hW1 : Wn s1.arrs := by
+        rw [h1.arrs]; exact hG.2.set (fun z hz => by cases hz; rw [hx1n, hx1e]; exact hG.2 i x hi)
+      have hi1 : s1.arrs[i]? = some (some x1) := by rw [h1.arrs]; exact List.getElem?_set_self hlti
+      have hj1 : s1.arrs[j]? = some (some y) := by rw [h1.arrs, List.getElem?_set_ne hij]; exact hj
+      apply Out.bind (readSrc_out (Q := fun _ => False) c j _ y s1 hI1 hj1 (Nat.le_refl _)) _ (fun _ h => h.elim)
+      intro _ s2 h2; subst h2
+      have hle : y.n ≤ x1.n := by
+        rw [hx1n, hG.2 i x hi, hG.2 j y hj, nElems_extsEq hsame]; exact Nat.le_refl _
+      apply Out.mono (assignOwn_out (T := s.fuel ≠ none ∧ (Op.assignCopy i j).isSaMove = true) c i y.n x1 s2 hI1 hi1 hle) _ _ id
+      · intro _ s' ⟨h3, h4, h5, h6⟩
+        refine ⟨⟨h3, by rw [h5]; exact hW1⟩, fun h => h4 (h1.fuel h), by rw [h5, h1.arrs, List.length_set], ?_, ?_⟩
+        · intro haff hA
+          apply h6
+          show InvA c s2.blocks s2.arrs
+          rw [h1.blocks, h1.arrs]
+          have hcase : c.pocca = false ∨ c.iae = true := by
+            simp only [Op.affectedA, Bool.and_eq_false_imp, Bool.not_eq_false'] at haff
+            cases hp : c.pocca with
+            | false => exact Or.inl rfl
+            | true => exact Or.inr (haff hp)
+          rcases hcase with hp | hiae
+          · have : x1 = x := by rw [← hx1, hp]; rfl
+            subst this
+            exact InvA.relabel hA hi rfl rfl (fun b blk hn hb hB hf => hA.ownerEq i _ b blk hi hn hb hB hf)
+          · exact InvA.of_iae hiae _ _
+        · show allocOf s' i = if c.pocca then allocOf s j else allocOf s i
+          have : allocOf s' i = some x1.alloc := by
+            unfold allocOf; rw [getArr_of_arrs (o := some x1)]; rfl
+            rw [h5]; exact hi1
+          rw [this, allocOf_eq hx, allocOf_eq hy, ← hx1]
+          cases c.pocca <;> rfl
+      · intro s' ⟨h3, h4, h5⟩
+        exact ⟨h1.armed h3, by rw [h5, h1.arrs, List.length_set], h4, by rw [h5]; exact hW1⟩
+  · simp only [hsame, Bool.false_eq_true, if_false, hfx7, if_true]
+    have hij : i ≠ j := by
+      intro e; subst e
+      have : x = y := by rw [hx] at hy; exact Option.some.inj hy
+      subst this
+      exact hsame (extsEq_refl _)
+    apply Out.bind (clearArr_out (T := s.fuel ≠ none ∧ (Op.assignCopy i j).isSaMove = true) c hok.wf i x s hG.1 hi) _ (fun _ h => h)
+    intro x1 s1 ⟨hx1, hI1, hnf1, harr1, hA1⟩
+    generalize hx2 : (if c.pocca = true then { x1 with alloc := y.alloc } else x1) = x2
+    have hx2n : x2.n = 0 := by rw [← hx2, hx1]; split <;> rfl
+    apply Out.bind (setSlot_out i (some x2) s1) _ (fun _ h => h)
+    intro _ s2 h2
+    have hi1 : s1.arrs[i]? = some (some x1) := by rw [harr1]; exact List.getElem?_set_self hlti
+    have harr2 : s2.arrs = s.arrs.set i (some x2) := by rw [h2.arrs, harr1, List.set_set]
+    have hI2 : InvS c s2 := by
+      show Inv c s2.blocks s2.arrs
+      rw [h2.blocks, h2.arrs]
+      exact Inv.set_nonowning hI1 hi1 (fun b => ownsB_empty b (by rw [hx1])) (fun z hz => by cases hz; exact hx2n)
+    have hW2 : Wn s2.arrs := by
+      rw [harr2]
+      exact hG.2.set (fun z hz => by
+        cases hz
+        have he : x2.ext = emptyExts c.dim := by rw [← hx2, hx1]; split <;> rfl
+        rw [hx2n, he, nElems_emptyExts hok.dim])
+    have hi2 : s2.arrs[i]? = some (some x2) := by rw [harr2]; exact List.getElem?_set_self hlti
+    have hj2 : s2.arrs[j]? = some (some y) := by rw [harr2, List.getElem?_set_ne hij]; exact hj
+    apply Out.bind (readSrc_out (Q := fun _ => False) c j _ y s2 hI2 hj2 (Nat.le_refl _)) _ (fun _ h => h.elim)
+    intro _ s3 h3; subst h3
+    apply Out.mono (rebuild_out (T := s.fuel ≠ none ∧ (Op.assignCopy i j).isSaMove = true) c i x2 x2.alloc y.n true
+      (fun p => { x2 with base := p, ext := y.ext, n := y.n }) s3 hI2 hW2 hi2 hx2n (by intro h; cases h)
+      (fun _ => rfl) (fun _ => rfl) (fun _ => hG.2 j y hj) (fun _ => eqv_refl c _)) _ _ id
+    · intro _ s' ⟨h4, h5, ⟨p, h6⟩, h7⟩
+      refine ⟨h4, fun h => h5 (h2.fuel (hnf1 h)), by rw [h6, harr2]; simp, ?_, ?_⟩
+      · intro haff hA
+        apply h7
+        show InvA c s3.blocks s3.arrs
+        rw [h2.blocks, h2.arrs]
+        exact InvA.set_nonowning (hA1 hA) (fun z hz => by cases hz; exact hx2n)
+      · show allocOf s' i = if c.pocca then allocOf s j else allocOf s i
+        have : allocOf s' i = some x2.alloc := by
+          rw [allocOf_set_self h6 (by rw [harr2]; simp; exact hlti)]
+        rw [this, allocOf_eq hx, allocOf_eq hy, ← hx2, hx1]
+        cases c.pocca <;> rfl
+    · intro s' ⟨h4, h5, h6⟩
+      exact ⟨fun h => h4 (h2.fuel (hnf1 h)), by rw [h6, harr2]; simp, h5⟩
+
 end Ledger
 end Multi
